@@ -103,6 +103,7 @@ func (s *State) clone() *State {
 // ---------------------------------------------------------------- obligations
 
 type Obligation struct {
+	vc       *VC
 	Name     string
 	Kind     string
 	Func     string
@@ -235,6 +236,12 @@ type VC struct {
 	prelude     []*preludeEntry
 	sentinels   []Term
 	flagsUsed   []string
+	decConsts   map[string]Term
+	caseTag     string
+	caseParam   string
+	caseValue   int64
+	bigConsts   map[string]int64
+	needDecVal  bool
 	globalInits []globalInit
 	needBytes   bool
 	frameOn     bool
@@ -260,6 +267,8 @@ func newVC(P *Prog, fn *ssa.Function, mode Mode) *VC {
 	vc.constEpoch = &epoch{id: 0, consts: map[string]Term{}}
 	vc.sentinelSeen = map[string]bool{}
 	vc.revealed = map[string]bool{}
+	vc.decConsts = map[string]Term{}
+	vc.bigConsts = map[string]int64{}
 	vc.opaqueDefs = map[string]string{}
 	vc.closures, vc.closureBind = map[string]*ssa.MakeClosure{}, map[string][]Val{}
 	vc.effectFree, vc.inlined, vc.defs = map[string]int{}, map[string]int{}, map[string]string{}
@@ -339,7 +348,10 @@ func (vc *VC) oblige(st *State, fr *Frame, kind, tag string, goal Term, src stri
 	if vc.oblCnt[base] > 1 || !strings.Contains(kind, ".") && tag == "" {
 		name = fmt.Sprintf("%s#%s.%d", fname, base, vc.oblCnt[base])
 	}
-	o := &Obligation{Name: name, Kind: kind, Func: fname, Prefix: len(vc.out), Reach: st.reach, Goal: goal, Src: src, Expect: "unsat"}
+	if vc.caseTag != "" {
+		name += vc.caseTag
+	}
+	o := &Obligation{vc: vc, Name: name, Kind: kind, Func: fname, Prefix: len(vc.out), Reach: st.reach, Goal: goal, Src: src, Expect: "unsat"}
 	if pos.IsValid() {
 		o.Pos = vc.P.Fset.Position(pos)
 	}
@@ -810,4 +822,139 @@ type globalInit struct {
 	name string
 	typ  types.Type
 	cv   *CV
+}
+
+// simplifyIte resolves (ite c a b) with a syntactically decidable condition of the forms produced by the
+// big.Float models, so that literal precisions/modes stay literal.
+func (vc *VC) simplifyIte(t Term) Term {
+	s := t.S
+	for i := 0; i < 8; i++ {
+		if d, ok := vc.defs[s]; ok {
+			s = d
+			continue
+		}
+		if strings.HasPrefix(s, "(ite ") {
+			parts := splitSexp(s[1 : len(s)-1])
+			if len(parts) == 4 {
+				c := parts[1]
+				if d, ok := vc.defs[c]; ok {
+					c = d
+				}
+				if strings.HasPrefix(c, "(= ") {
+					cp := splitSexp(c[1 : len(c)-1])
+					if len(cp) == 3 {
+						a, b := vc.resolve(cp[1]), vc.resolve(cp[2])
+						_, la := litValue(mk(a, nil))
+						_, lb := litValue(mk(b, nil))
+						if la && lb {
+							if a == b {
+								s = parts[2]
+							} else {
+								s = parts[3]
+							}
+							continue
+						}
+					}
+				}
+				if strings.HasPrefix(c, "(>= ") {
+					cp := splitSexp(c[1 : len(c)-1])
+					if len(cp) == 3 {
+						av, la := litValue(mk(vc.resolve(cp[1]), nil))
+						bv, lb := litValue(mk(vc.resolve(cp[2]), nil))
+						if la && lb {
+							if av >= bv {
+								s = parts[2]
+							} else {
+								s = parts[3]
+							}
+							continue
+						}
+					}
+				}
+			}
+		}
+		break
+	}
+	return mk(vc.resolve(s), t.T)
+}
+
+func (vc *VC) resolve(s string) string {
+	for i := 0; i < 8; i++ {
+		d, ok := vc.defs[s]
+		if !ok {
+			break
+		}
+		s = d
+	}
+	// select over store chains of the aux components: (select (store h r v) r) => v
+	for i := 0; i < 8 && strings.HasPrefix(s, "(select "); i++ {
+		parts := splitSexp(s[1 : len(s)-1])
+		if len(parts) != 3 {
+			break
+		}
+		h := parts[1]
+		if d, ok := vc.defs[h]; ok {
+			h = d
+		}
+		if !strings.HasPrefix(h, "(store ") {
+			break
+		}
+		sp := splitSexp(h[1 : len(h)-1])
+		if len(sp) != 4 {
+			break
+		}
+		if sp[2] == parts[2] {
+			s = sp[3]
+			for j := 0; j < 8; j++ {
+				if d, ok := vc.defs[s]; ok {
+					s = d
+				} else {
+					break
+				}
+			}
+			continue
+		}
+		// different literal references cannot alias; neither can base+j and base+k for j != k
+		_, l1 := litValue(mk(sp[2], nil))
+		_, l2 := litValue(mk(parts[2], nil))
+		b1, k1 := refBase(sp[2])
+		b2, k2 := refBase(parts[2])
+		glob := func(b string) bool { return strings.HasPrefix(b, "|GC:") }
+		alloc := func(b string, k int) bool { return strings.HasPrefix(b, "|top") }
+		if (l1 && l2) || (b1 == b2 && k1 != k2) || (glob(b1) && alloc(b2, k2)) || (glob(b2) && alloc(b1, k1)) {
+			s = "(select " + sp[1] + " " + parts[2] + ")"
+			continue
+		}
+		break
+	}
+	return s
+}
+
+// refBase splits an allocation reference (+ (+ base 1) 1) into (base, 2).
+func refBase(t string) (string, int) {
+	k := 0
+	for strings.HasPrefix(t, "(+ ") && strings.HasSuffix(t, " 1)") {
+		t = t[3 : len(t)-3]
+		k++
+	}
+	return t, k
+}
+
+// decVal: the exact value of decimal numeral t as one Real constant per syntactic argument (a function
+// application would pull the query out of pure arithmetic and slow every solver down; congruence between
+// different terms for equal strings is not needed and not provided).
+func (vc *VC) decVal(t Term, which string) Term {
+	key := which + "!" + t.S
+	if c, ok := vc.decConsts[key]; ok {
+		return c
+	}
+	srt := sortReal
+	if which == "valid" {
+		srt = sortBool
+	}
+	n := smtIdent(fmt.Sprintf("dec%s!%d", which, len(vc.decConsts)))
+	vc.constDecls = append(vc.constDecls, fmt.Sprintf("(declare-const %s %s)", n, srt.Name))
+	c := mk(n, srt)
+	vc.decConsts[key] = c
+	return c
 }
